@@ -63,10 +63,28 @@ struct Ctx {
     for (const auto& a : everAliases) { const auto f = form.Core().FindAlias(a); out += "|" + a + "=" + (f ? std::to_string(*f) : "-"); }
     return out;
   }
+  // "a unique alias in EVERY view": the formal part, the text part and both alias indexes agree constituent by constituent
+  // (seeded change C09-4: a copy whose alias was re-issued kept the source alias in its text part)
+  std::string viewsAgree() const {
+    std::set<std::string> seenText;
+    for (const auto uid : form.Core()) {
+      const auto& rs = form.GetRS(uid); const auto& tx = form.GetText(uid);
+      if (tx.alias != rs.alias) return "0:text-alias[" + tx.alias + "]formal[" + rs.alias + "]";
+      if (!seenText.insert(tx.alias).second) return "0:duplicate-text-alias[" + tx.alias + "]";
+      const auto f1 = form.Core().FindAlias(rs.alias);
+      if (!f1.has_value() || *f1 != uid) return "0:core-index[" + rs.alias + "]";
+      const auto f2 = form.Texts().FindAlias(rs.alias);
+      if (!f2.has_value() || *f2 != uid) return "0:text-index[" + rs.alias + "]";
+      const auto f3 = form.RSLang().FindAlias(rs.alias);
+      if (!f3.has_value() || *f3 != uid) return "0:formal-index[" + rs.alias + "]";
+    }
+    return "1";
+  }
   void report() {
     const auto d = dump();
     emit("c09 dump", d);
     emit("c09 chk " + d, "1");
+    emit("c09 views", viewsAgree());
   }
 };
 
